@@ -18,6 +18,9 @@ NATIVE = ['LinConRange', 'LinConLE', 'LinConEQ', 'LinConGE', 'AbsConstraint', 'M
           'OrConstraint', 'NotConstraint', 'IfThenConstraint', 'CondLinConLT', 'CondLinConLE', 'CondLinConEQ', 'CondLinConGE',
           'CondLinConGT', 'CountConstraint']
 LINEAR = ['LinConRange', 'LinConLE', 'LinConEQ', 'LinConGE']
+# run that shows the flat model (definitions with their contexts): the fragment's types + the linear functional constraint accepted;
+# quadratic types stay unaccepted (with QuadConLE accepted, abs(x) <= 0 is rewritten to x*x <= 0: an acceptance-dependent path)
+FLAT = NATIVE + ['LinearFunctionalConstraint']
 
 
 def q2s(q):
@@ -155,21 +158,22 @@ class FragGen:
             return ('or', [self.log(d - 1, 'or') for _ in range(rng.rint(2, 3))])
         return ('not', self.log(d - 1, 'not'))
 
-    def model(self):
+    def model(self, nolcons=False):
+        """nolcons: logical expressions only inside if-then-else / count conditions (no logical rows)"""
         rng = self.rng
         self.make_vars()
         cons, lcons, obj = [], [], None
-        for _ in range(rng.rint(0, 2)):
+        for _ in range(rng.rint(1 if nolcons else 0, 2)):
             e = self.num(rng.rint(1, 2), False)
             c0 = F(rng.rint(-4, 8))
             pat = rng.below(4)
             lb, ub = [(None, c0), (c0, None), (c0, c0 + rng.rint(0, 3)), (c0, c0)][pat]
             cons.append((e, lb, ub))
-        for _ in range(rng.rint(0, 2)):
+        for _ in range(0 if nolcons else rng.rint(0, 2)):
             lcons.append(self.log(rng.rint(1, 2)))
         if not cons and not lcons:
             lcons.append(self.log(1))
-        if rng.chance(1, 2):
+        if rng.chance(1, 2) or nolcons:
             obj = (rng.choice(['min', 'max']), self.num(rng.rint(1, 2), False))
         return cons, lcons, obj
 
@@ -243,7 +247,7 @@ def canon_def(d):
 
 def real_side(exe, stub, n0, acc, opts):
     """flat model (all-accepted run) and delivered model (run with the acceptance set `acc`) of the real converter, canonical"""
-    ra = recsolver.run(exe, stub, options=opts, accept=G.BASE_ACCEPT)
+    ra = recsolver.run(exe, stub, options=opts, accept=FLAT)
     rd = recsolver.run(exe, stub, options=opts, accept=acc)
     out = {'okA': ra['rc'] == 0 and any(e.get('ev') == 'end' for e in ra['log']),
            'okD': rd['rc'] == 0 and any(e.get('ev') == 'end' for e in rd['log']), 'rd': rd, 'ra': ra}
@@ -296,7 +300,7 @@ def parse_conv(ans):
     if not ans.startswith('conv '):
         return {'kind': 'bad', 'what': ans[:200]}
     head, *_ = ans.split('|V|', 1)
-    m = re.match(r'conv N=(\d+) M=(\d+) shortcut=(\d)', head.strip())
+    m = re.match(r'conv N=(\d+) M=(\d+) shortcut=(\d)(?: infragment=(\d))?', head.strip())
     if not m:
         return {'kind': 'bad', 'what': ans[:200]}
     rest = ans[len(head):]
@@ -305,7 +309,7 @@ def parse_conv(ans):
         i = rest.index(key) + len(key)
         j = rest.index(nxt) if nxt else len(rest)
         sec[key] = rest[i:j].strip()
-    return {'kind': 'conv', 'N': int(m.group(1)), 'M': int(m.group(2)), 'shortcut': m.group(3) == '1',
+    return {'kind': 'conv', 'N': int(m.group(1)), 'M': int(m.group(2)), 'shortcut': m.group(3) == '1', 'infragment': m.group(4) != '0',
             'V': [v for v in sec['|V|'].split(';') if v], 'D': [canon_def(d) for d in sec['|D|'].split('|') if d],
             'R': [r for r in sec['|R|'].split('|') if r], 'O': sec['|O|'],
             'C': sorted(canon_row(c.strip()) for c in sec['|C|'].split(' ; ') if c.strip())}
@@ -399,7 +403,9 @@ def run_refconv(ck, drv, exe, n_models, seed_base, wd, log=None):
     import collections
     st = {'models': 0, 'drawn': 0, 'compared': 0, 'agree': 0, 'shortcut': 0, 'outside': 0, 'ref_refusal': 0, 'real_refusal': 0,
           'refusal_agree': 0, 'disagree': 0, 'classes': collections.Counter(), 'examples': {}, 'violations': [], 'drift': 0,
-          'by_acc': {'native': [0, 0], 'linear': [0, 0]}, 'bad': 0}
+          'by_acc': {'native': [0, 0], 'linear': [0, 0]}, 'bad': 0, 'outside_fragment_predicate': 0,
+          # strata: models without logical rows (logical expressions only under ite/count) / models with logical rows
+          'by_stratum': {'no-logical-rows': [0, 0], 'logical-rows': [0, 0]}}
     stub = os.path.join(wd, 'rc')
     k = 0
     while st['models'] < n_models and st['drawn'] < 6 * n_models:
@@ -407,7 +413,8 @@ def run_refconv(ck, drv, exe, n_models, seed_base, wd, log=None):
         k += 1
         st['drawn'] += 1
         g = FragGen(rng, tame=(k % 4 != 0))
-        cons, lcons, obj = g.model()
+        cons, lcons, obj = g.model(nolcons=(k % 2 == 0))
+        stratum = 'logical-rows' if lcons else 'no-logical-rows'
         m, grids, line = build(g, cons, lcons, obj)
         answers = {}
         skip = None
@@ -420,6 +427,8 @@ def run_refconv(ck, drv, exe, n_models, seed_base, wd, log=None):
                 skip = 'bad'
             elif c['kind'] == 'conv' and c['shortcut']:
                 skip = 'shortcut'
+            elif c['kind'] == 'conv' and not c['infragment']:
+                skip = 'outside_fragment_predicate'
         if skip:
             st[skip] += 1
             if skip == 'bad':
@@ -445,15 +454,17 @@ def run_refconv(ck, drv, exe, n_models, seed_base, wd, log=None):
             else:
                 st['compared'] += 1
                 st['by_acc'][accn][1] += 1
+                st['by_stratum'][stratum][1] += 1
                 diffs = compare(c, r)
                 if not diffs:
                     st['agree'] += 1
                     st['by_acc'][accn][0] += 1
+                    st['by_stratum'][stratum][0] += 1
                     continue
                 cls = diff_class(c, r, diffs)
             st['disagree'] += 1
             verdict = oracle_says(m, grids, r['rd']) if r.get('okD') else 'na:real-refusal'
-            key = '%s|%s|oracle=%s' % (accn, cls, verdict.split(':')[0])
+            key = '%s|%s|%s|oracle=%s' % (accn, stratum, cls, verdict.split(':')[0])
             st['classes'][key] += 1
             ex = {'line': '%s eps=%s acc=%s' % (line, EPS_Q, accn), 'diffs': diffs, 'oracle': verdict}
             for sct in diffs:
